@@ -299,6 +299,25 @@ pub fn oracle(c: &Corpus, _seed: u64, _tier: &str) -> Vec<Report> {
         }
     }
     r2.distinct_nontrivial = seen.len() as u64;
+    // every keyword of the table as a token (`Token::make_keyword`, public): the corpus does not
+    // contain every keyword, and a user-defined dialect can lex spellings no built-in one does
+    // (`END-EXEC` needs `-` as an identifier part)
+    for kw in sqlparser::keywords::ALL_KEYWORDS {
+        for quoted in [None, Some('"')] {
+            let x: Vec<Token> = vec![Token::make_word(kw, quoted), Token::EOF];
+            r2.evaluations += 1;
+            let res = guard(|| {
+                let v = serde_json::to_value(&x).map_err(|e| format!("to_value: {e}"))?;
+                let y: Vec<Token> = serde_json::from_value(v).map_err(|e| format!("from_value: {e}"))?;
+                Ok::<_, String>(y)
+            });
+            match res {
+                G::Panic(m) => r2.panic("generic", Opts::DEFAULT, kw, m),
+                G::Val(Err(e)) => r2.fail("keyword-token/serde-error".into(), "generic", Opts::DEFAULT, kw, e),
+                G::Val(Ok(y)) => { if y != x { r2.fail("keyword-token/value-roundtrip-differs".into(), "generic", Opts::DEFAULT, kw, String::new()); } }
+            }
+        }
+    }
     // informational: public tokenizer types that do not derive Serialize (outside the property's
     // `Vec<Token>`; `tokenize_with_location` results cannot be serialised at all)
     for (n, f) in &sch.underived_pub_types {
